@@ -101,8 +101,9 @@ def audit(prop, tier):
                                  not_applicable=[dict(key=x['key'], reason=x.get('reason')) for x in pt['untranslatable']])
     for x in pt['proved']:
         thms.append(x['theorem'])
-    thms += pt.get('lifted', [])
+    thms += pt.get('lifted', []) + pt.get('source', [])
     res['structural_tie']['source_level_corollaries'] = pt.get('lifted', [])
+    res['structural_tie']['source_level_theorems'] = pt.get('source', [])
     if pt.get('lifted_skipped'):
         res['structural_tie']['source_level_corollaries_not_checked_because'] = pt['lifted_skipped']
     for m_ in pt['modules']:
